@@ -458,7 +458,9 @@ pub fn run(ctx: &Ctx, part: &str) -> i32 {
         ctx.par("leak", ctx.n(300, 3000), true, |idx, rng| leak_case(ctx, idx, rng));
         extra.put("guard_allocator", guard_report(ctx));
     }
-    if ctx.only.is_none() {
+    // a Miri process runs only a handful of scenarios: its obligations are checked by the driver
+    // on the totals over all processes
+    if ctx.only.is_none() && !small {
         ctx.obligation("exact-fit inserts observed (H3)", ctx.counter("sorter_inserts:observed:buffer-exactly-full") > 0);
         ctx.obligation("one-byte-short inserts", ctx.counter("sorter_inserts:one-byte-short") > 0);
         ctx.obligation("oversized inserts", ctx.counter("sorter_inserts:oversized") > 0);
